@@ -49,7 +49,7 @@ def run():
         neg = pool.submit(vf.tlc, SPEC, "LangFile_MC", "LangFile_MC_asis.cfg", sd, workers=2, timeout=900)
         # long-section family (one section of 13..40 entries, many duplicates of few keys): seeded TLC simulation, beside the rest
         lng = pool.submit(vf.tlc, SPEC, "LangFile_Long", "LangFile_Long.cfg", sd, workers=1,
-                          simulate="num=%d" % (40 if thorough else 4), depth=42, seed=vf.SEED, timeout=2400)
+                          simulate="num=%d" % (20 if thorough else 4), depth=42, seed=vf.SEED, timeout=2400)
         # 1. contract on the models (fixed), exhaustive at the tier's bounds; the same run emits every file
         r = vf.tlc_ok(vf.tlc(SPEC, "LangFile_MC", "LangFile_MC.cfg" if thorough else "LangFile_MCq.cfg", sd,
                              workers=min(vf.NCPU, 8), timeout=2400), "LangFile MC")
